@@ -1,6 +1,7 @@
 (* Proofs about the tokenizer model Lex.v (property C11). *)
 From Coq Require Import Sorting.Sorted.
 From Ucg Require Import base.Bytes base.Bytes_Lemmas lex.Lex_Types lex.Vocab lex.Lex.
+From UcgGen Require Import LexVocab.
 Local Open Scope list_scope.
 
 (* ================================================================== *)
@@ -147,9 +148,11 @@ Proof.
     intros H; inversion H; subst. now apply strip_prefix_some.
   - destruct (strip_prefix (b lit) s) as [r1|] eqn:E; [|discriminate]. apply strip_prefix_some in E.
     destruct (ws_run r1) as [[k' r']|] eqn:E1.
-    + intros H; inversion H; subst. apply ws_run_app in E1 as [-> _]. now rewrite app_assoc.
+    + destruct kw_lookahead_only; intros H; inversion H; subst; [reflexivity|].
+      apply ws_run_app in E1 as [-> _]. now rewrite app_assoc.
     + destruct (comment_run r1) as [[[bd k'] r']|] eqn:E2; [|discriminate].
-      intros H; inversion H; subst. apply comment_run_app in E2 as [-> _]. now rewrite app_assoc.
+      destruct kw_lookahead_only; intros H; inversion H; subst; [reflexivity|].
+      apply comment_run_app in E2 as [-> _]. now rewrite app_assoc.
   - destruct s as [|c s]; [discriminate|]. destruct (is_digit c); [|discriminate].
     destruct (span is_digit (c :: s)) as [d r'] eqn:E. intros H; inversion H; subst. eapply span_app; eauto.
   - destruct (comment_run s) as [[[bd k'] r']|] eqn:E; [|discriminate].
@@ -176,9 +179,11 @@ Proof.
     assert (Hl : b lit <> []) by (intros E; rewrite E in Hn; discriminate).
     destruct (strip_prefix (b lit) s) as [r1|]; [|discriminate].
     destruct (ws_run r1) as [[k' r']|].
-    + intros H; inversion H; subst. destruct (b lit); [congruence|cbn; discriminate].
+    + destruct kw_lookahead_only; intros H; inversion H; subst;
+        (destruct (b lit); [congruence|cbn; discriminate]).
     + destruct (comment_run r1) as [[[bd k'] r']|]; [|discriminate].
-      intros H; inversion H; subst. destruct (b lit); [congruence|cbn; discriminate].
+      destruct kw_lookahead_only; intros H; inversion H; subst;
+        (destruct (b lit); [congruence|cbn; discriminate]).
   - destruct s as [|c s]; [discriminate|]. destruct (is_digit c) eqn:Ec; [|discriminate].
     destruct (span_head is_digit c s Ec) as (a & r' & ->). intros H; inversion H; discriminate.
   - destruct (comment_run s) as [[[bd k'] r']|] eqn:E; [|discriminate].
@@ -667,9 +672,9 @@ Proof.
     destruct (strip_prefix (b lit) s) as [r1|] eqn:E; [|discriminate]. apply strip_prefix_some in E.
     assert (Hl : b lit <> []) by (intros E'; rewrite E' in Hn; discriminate).
     destruct (ws_run r1) as [[k' r']|].
-    + intros H; inversion H; subst. apply plain_text_at; eauto.
+    + destruct kw_lookahead_only; intros H; inversion H; subst; apply plain_text_at; eauto.
     + destruct (comment_run r1) as [[[bd k'] r']|]; [|discriminate].
-      intros H; inversion H; subst. apply plain_text_at; eauto.
+      destruct kw_lookahead_only; intros H; inversion H; subst; apply plain_text_at; eauto.
   - destruct s as [|c s]; [discriminate|]. destruct (is_digit c) eqn:Ec; [|discriminate].
     destruct (span_head is_digit c s Ec) as (a & r' & E). rewrite E.
     intros H; inversion H; subst. apply span_app in E. cbn. split; [discriminate|eauto].
@@ -1457,8 +1462,10 @@ Proof.
       { unfold ws_run in Ews. destruct (w2 ++ x) as [|d r] eqn:Ed; [discriminate|].
         destruct (is_ws d) eqn:Ewd; [|discriminate]. eapply Hr1; eauto. }
       subst w2. rewrite app_nil_r in Hw2. cbn [app] in Ews.
-      rewrite alt_cons. cbn [run_rec]. rewrite E. cbn [app]. rewrite Ews.
-      rewrite Hw2. eexists _, rest. split; [reflexivity|]. eapply strip_lex_after_ws; eauto.
+      rewrite alt_cons. cbn [run_rec]. rewrite E. cbn [app]. rewrite Ews. rewrite Hw2.
+      destruct kw_lookahead_only.
+      { eexists _, x. split; reflexivity. }
+      eexists _, rest. split; [reflexivity|]. eapply strip_lex_after_ws; eauto.
     + destruct (comment_run (w2 ++ x)) as [[[bd k] rest]|] eqn:Ecm.
       * assert (w2 = []).
         { unfold comment_run in Ecm.
@@ -1466,8 +1473,10 @@ Proof.
           apply strip_prefix_some in Ep. destruct (w2 ++ x) as [|d r'] eqn:Ed; [discriminate|].
           inversion Ep; subst d. eapply Hr1; eauto. }
         subst w2. rewrite app_nil_r in Hw2. cbn [app] in Ecm, Ews.
-        rewrite alt_cons. cbn [run_rec]. rewrite E. cbn [app]. rewrite Ews, Ecm.
-        rewrite Hw2. eexists _, rest. split; [reflexivity|]. eapply strip_lex_after_comment; eauto.
+        rewrite alt_cons. cbn [run_rec]. rewrite E. cbn [app]. rewrite Ews, Ecm. rewrite Hw2.
+        destruct kw_lookahead_only.
+        { eexists _, x. split; reflexivity. }
+        eexists _, rest. split; [reflexivity|]. eapply strip_lex_after_comment; eauto.
       * apply Hnext; [discriminate|]. cbn [run_rec]. now rewrite E, Ews, Ecm.
   - (* digittok *) apply Hnext; [discriminate|]. cbn. now rewrite Fdig.
   - (* comment *) apply Hnext; [discriminate|]. cbn [run_rec]. unfold comment_run.
@@ -1780,8 +1789,9 @@ Proof.
     destruct (escq false s) as [[[? ?] ?]|]; [|discriminate]. inversion Hr; subst. reflexivity.
   - destruct (strip_prefix (b lit) s); [|discriminate]. inversion Hr; subst. exact TL.
   - destruct (strip_prefix (b lit) s) as [r1|]; [|discriminate].
-    destruct (ws_run r1) as [[? ?]|]; [inversion Hr; subst; exact TL|].
-    destruct (comment_run r1) as [[[? ?] ?]|]; [|discriminate]. inversion Hr; subst; exact TL.
+    destruct (ws_run r1) as [[? ?]|]; [destruct kw_lookahead_only; inversion Hr; subst; exact TL|].
+    destruct (comment_run r1) as [[[? ?] ?]|]; [|discriminate].
+    destruct kw_lookahead_only; inversion Hr; subst; exact TL.
   - destruct s as [|c s]; [discriminate|]. destruct (is_digit c) eqn:Ec; [|discriminate].
     destruct (span is_digit (c :: s)) as [d r'] eqn:E. inversion Hr; subst.
     unfold wf_tk. cbn [fst snd]. rewrite (span_all _ _ _ _ E).
